@@ -802,6 +802,23 @@ MUTANTS = [
            lambda f, t: replace_stmt(f, lambda s: isinstance(s, ast.If), stmts("self.unregister(objectId)"))),
     Mutant("C16", "urifor-hands-out-whatever-the-text-parses-to", "C16-R3", S, "Daemon.uriFor",
            lambda f, t: delete_stmt(f, lambda s: isinstance(s, ast.If) and ".object" in u(s.test))),
+    Mutant("C10", "in-sync-close-forgets-to-tell-the-server", "C10-R6", C, "_StreamResultIterator.close",
+           lambda f, t: replace_stmt(f, lambda s: isinstance(s, ast.Expr) and "close_stream" in u(s) and u(s).startswith("self.proxy._pyroInvoke"), stmts("pass"))),
+    Mutant("C03", "sequence-error-text-never-assigned", "C03-R1", C, "Proxy.__pyroCheckSequence",
+           lambda f, t: delete_stmt(f, lambda s: isinstance(s, ast.Assign) and u(s.targets[0]) == "err"), also=("C05",)),
+    Mutant("C14", "naming-error-built-from-an-unbound-name", "C14-R7", NSV, "NameServer.lookup",
+           lambda f, t: replace_expr(f, lambda e: isinstance(e, ast.BinOp) and "unknown name" in u(e), "'unknown name: ' + requested_name")),
+    Mutant("C14", "sqlite-prefix-listing-always-with-metadata", "C14-R3", NSV, "SqlStorage.optimized_prefix_list",
+           lambda f, t: set_test(f, lambda e: u(e) == "return_metadata", "True")),
+    Mutant("C14", "regex-listing-ignores-the-metadata-flag", "C14-R3", NSV, "NameServer.list",
+           lambda f, t: _set_nth_test(f, lambda e: False, "True") if False else
+           [setattr(n, "value", n.value.body) for n in ast.walk(f) if isinstance(n, ast.Assign) and isinstance(n.value, ast.IfExp) and u(n.value.test) == "return_metadata"][-1:]),
+    Mutant("C14", "yplookup-asks-the-storage-without-the-flag", "C14-R3", NSV, "NameServer.yplookup",
+           lambda f, t: [c.keywords.remove(k) for c in ast.walk(f) if isinstance(c, ast.Call) and u(c.func).endswith("optimized_metadata_search") for k in list(c.keywords) if k.arg == "return_metadata"]),
+    Mutant("C19", "empty-metadata-tag-kept", "C19-R4", CO, "URI.__init__",
+           lambda f, t: delete_stmt(f, lambda s: isinstance(s, ast.Expr) and "discard" in u(s))),
+    Mutant("C19", "metadata-uri-printed-like-any-other", "C19-R3", CO, "URI.__str__",
+           lambda f, t: set_test(f, lambda e: "PYROMETA" in u(e), "False")),
     Mutant("C18", "communication-timeout-set-by-the-worker", "C18-R3", ST, "SocketServer_Threadpool.events",
            lambda f, t: (delete_stmt(f, lambda s: isinstance(s, ast.If) and "COMMTIMEOUT" in u(s.test)),
                          find_fn(t, "ClientConnectionJob.__call__").body.insert(0, stmts("if config.COMMTIMEOUT:\n    self.csock.timeout = config.COMMTIMEOUT")[0])), also=("C05",)),
